@@ -159,6 +159,66 @@ PROPS = {
                 "return exactly the unlimited bytes when len<=L and Err(OutOfMemory) otherwise. Non-trivial: a tree whose whole limit sweep was checked.",
         "assumptions": COMMON_ASSUMPTIONS,
     },
+    "C19": {
+        "variants": {"quick": ["rel", "dbg"], "thorough": ["rel", "dbg", "miri"]},
+        "budget_s": (30, 1500),
+        "min_nontrivial": {"quick": 2000, "thorough": 20000},
+        "must_observe": ["salted_histories", "histories_with_undo_then_different_add", "histories_with_repeated_sentinels", "outputs_with_backrefs"],
+        "rule": "Random add/undo histories (2-14 steps) of the incremental Serializer: every added tree is built from fresh atoms plus sub-trees of earlier additions (forcing back-references across the cut) and contains the sentinel 0-3 times at random leaf "
+                "positions; undo is single- and multi-level with a LIFO stack of undo states, also of the final add, always followed by a different addition. Oracle: (a) after restore() the buffer equals the snapshot taken before the undone add, (b) the done flag "
+                "follows a pending-sentinel counter, (c) the finished bytes decode with node_from_bytes_backrefs to the tree assembled by a harness model that substitutes sentinels in pre-order by the retained additions, (d) the whole history replayed under 4 forced "
+                "salts yields identical bytes at every step. Non-trivial: history has an undo followed by a different add and the output contains a back-reference.",
+        "assumptions": COMMON_ASSUMPTIONS + ["API preconditions respected: undo states used in LIFO order, no add after completion"],
+    },
+    "C20": {
+        "variants": {"quick": ["rel", "asan"], "thorough": ["rel", "asan", "miri"]},
+        "budget_s": (30, 1500),
+        "total": True,
+        "min_nontrivial": {"quick": 2000, "thorough": 20000},
+        "must_observe": ["cross_decoder_probes", "max_atom_len_probes", "mutated_blob_accepted", "mutated_blob_rejected"],
+        "rule": "Round trip: trees of all shapes incl. many distinct atoms of one boundary length (63/64/65 -> group headers around -64) and 55-75 pairs with a late shared sub-tree (pair back-reference indices around -64) at levels {0,1,7,u32::MAX}: strict and lenient "
+                "decode == model tree, serialized_length_serde_2026 == blob length (also with trailing bytes), decoding succeeds iff max_atom_len >= largest atom, and the 7 classic/back-reference entry points reject the blob. Robustness: mutated valid blobs "
+                "(behind and inside the prefix), prefix+noise, noise, huge counts (2^54 groups/atoms/instructions): no panic, peak heap <= 2 MiB + 256*len + 2*max_atom_len, probe == bytes consumed whenever decoding succeeds. Non-trivial: tree with real sharing / mutated blob that still decodes.",
+        "assumptions": COMMON_ASSUMPTIONS + ["max_atom_len values beyond 16 MiB are a caller contract and not exercised"],
+    },
+    "C21": {
+        "variants": {"quick": ["rel"], "thorough": ["rel", "miri"]},
+        "budget_s": (25, 1500),
+        "exhaustive_key": "exhaustive_encodings",
+        "min_nontrivial": {"quick": 100000, "thorough": 1000000},
+        "must_observe": ["exhaustive_encodings", "exhaustive_values", "width_boundary_values", "truncated_inputs", "overlong_encodings_checked"],
+        "rule": "EXHAUSTIVE over every encoding whose prefix declares <=3 bytes (quick, 2.1M) / <=4 bytes (thorough, 270M), strict and lenient, with a trailing byte that must not be consumed; encoder exhaustive for |v| < 2^20 (quick) / 2^27 (thorough), every "
+                "width boundary +-2^(7k-1)+-{0,1,2}, random 56-bit values; for each value every longer encoding (lenient must return the value, strict must reject) and every truncation (must fail); 0xff and empty input. Oracle: independent varint model "
+                "(minimal length by range, two's-complement payload). distinct_nontrivial counts the enumerated encodings (distinct by construction) plus random cases.",
+        "assumptions": COMMON_ASSUMPTIONS,
+    },
+    "C22": {
+        "variants": REL,
+        "budget_s": (25, 1200),
+        "min_nontrivial": {"quick": 2000, "thorough": 20000},
+        "must_observe": ["small_int_cases", "parse_triples_node_hashes"],
+        "rule": "Every integer 0..300 in canonical, zero-padded and single-byte form (alone and inside shared pairs) and random trees/DAGs with atoms in all representations: the harness's recursive-definition hash (sha2 crate, memoised) is compared with "
+                "tree_hash_costed, op_sha256_tree, run_program (sha256tree 1), ObjectCache treehash, InternedTree::tree_hash, tree_hash_from_stream, the root hash of parse_triples, and the ChiaLisp sha256tree program; the wheel's sha256_treehash is compared in the C26 python monitor. "
+                "Non-trivial: tree has a shared sub-tree or an atom of <=1 byte.",
+        "assumptions": COMMON_ASSUMPTIONS,
+    },
+    "C23": {
+        "variants": REL,
+        "budget_s": (25, 1200),
+        "min_nontrivial": {"quick": 2000, "thorough": 20000},
+        "must_observe": ["shape_single_atom", "shape_complete_shared", "shape_shared_pairs_then_blob", "shape_random_tree"],
+        "rule": "Single atoms of 0..4,000,000 bytes, huge atoms beside/below shared small pairs, complete trees of depth 1..16 (shared and unshared, leaf sizes 0/1/2/100), random trees/DAGs with atoms up to 60 KB; for each tree and {old,new} cost model x {GC off,on}: "
+                "cost of (sha256tree (q . X)) must be strictly less than the cost of the maintainers' compiled ChiaLisp sha256tree program run on X, and both results equal. Non-trivial: every tree/flag combination (the minimum margin observed is reported).",
+        "assumptions": COMMON_ASSUMPTIONS + ["the ChiaLisp program is the one in tools/src/bin/sha256tree-benching.rs"],
+    },
+    "C24": {
+        "variants": {"quick": ["rel"], "thorough": ["rel", "miri"]},
+        "budget_s": (25, 1200),
+        "min_nontrivial": {"quick": 2000, "thorough": 20000},
+        "rule": "Trees/DAGs with heavy structural sharing, unshared deep copies placed next to the original (equal sub-trees that are different nodes), equal atoms stored as separate nodes in different representations (inline, forced heap, view, concat): intern_tree must "
+                "give the same tree/serialisation/hash, pairwise distinct atoms and pairwise distinct pairs, counts equal to an independent hash-consing census of the model and never above the source's node counts. Non-trivial: source has duplicate atoms or sub-trees.",
+        "assumptions": COMMON_ASSUMPTIONS,
+    },
     "C25": {
         "variants": {"quick": ["rel", "dbg", "asan"], "thorough": ["rel", "dbg", "asan", "miri"]},
         "budget_s": (25, 1200),
